@@ -166,18 +166,29 @@ class Engine(ExprMixin, StmtMixin, CallMixin, SpecMixin):
     def exit_normal(self, value, fr, node):
         c = self.contract
         self.covered_sites.add("exit-normal")
-        for label, expr in c.ensures:
-            g = self.spec_bool(expr, fr, label, result=value)
-            self.oblige("POST", label, g, node)
+        # in postconditions parameter names denote the entry values (parameters are mutable locals in Python)
+        saved = dict(fr.locals)
+        fr.locals.update(fr.entry)
+        try:
+            for label, expr in c.ensures:
+                g = self.spec_bool(expr, fr, label, result=value)
+                self.oblige("POST", label, g, node)
+        finally:
+            fr.locals = saved
         self.check_frame_exit(fr)
 
     def exit_raise(self, e: RaiseSig, fr):
         c = self.contract
         if e.exc in c.raises:
             self.covered_sites.add("exit-raise-" + e.exc)
-            for label, expr in c.raises[e.exc]:
-                g = self.spec_bool(expr, fr, label)
-                self.oblige(f"POST-raise[{e.exc}]", label, g)
+            saved = dict(fr.locals)
+            fr.locals.update(fr.entry)
+            try:
+                for label, expr in c.raises[e.exc]:
+                    g = self.spec_bool(expr, fr, label)
+                    self.oblige(f"POST-raise[{e.exc}]", label, g)
+            finally:
+                fr.locals = saved
             self.check_frame_exit(fr)
         else:
             # an exception the contract does not allow
